@@ -80,8 +80,9 @@ def make_array(np, carrier, vals):
         return np.array(fl, dtype=np.float64)
     if carrier == 'ndarray-f32':
         return np.array(fl, dtype=np.float32) if all(_exact(np, v, np.float32) for v in vals) else None
-    if carrier in ('ndarray-i64', 'ndarray-i32', 'ndarray-u8'):
-        tp = {'ndarray-i64': np.int64, 'ndarray-i32': np.int32, 'ndarray-u8': np.uint8}[carrier]
+    if carrier in ('ndarray-i64', 'ndarray-i32', 'ndarray-u8', 'ndarray-u16', 'ndarray-u32', 'ndarray-i8', 'ndarray-i16', 'ndarray-u64'):
+        tp = {'ndarray-i64': np.int64, 'ndarray-i32': np.int32, 'ndarray-u8': np.uint8, 'ndarray-u16': np.uint16, 'ndarray-u32': np.uint32,
+              'ndarray-i8': np.int8, 'ndarray-i16': np.int16, 'ndarray-u64': np.uint64}[carrier]
         return np.array([int(v) for v in vals], dtype=tp) if all(_exact(np, v, tp) for v in vals) else None
     if carrier == 'ndarray-obj':
         return np.array([int(v) if v.denominator == 1 else float(v) for v in vals], dtype=object)
